@@ -91,6 +91,8 @@ pub struct Case {
     pub spare: usize,
     /// threads whose operations run inside a destructor while the thread is unwinding from an unrelated panic
     pub inpanic: Vec<usize>,
+    /// `Clone::clone` of an element is a scheduling point of its own
+    pub clonepoint: bool,
     pub threads: Vec<Vec<Op>>,
     pub owner: Owner,
     pub sched: Vec<usize>,
@@ -375,6 +377,7 @@ struct Partial {
     pod: bool,
     spare: usize,
     inpanic: Vec<usize>,
+    clonepoint: bool,
     threads: Vec<Vec<Op>>,
     owner: Option<Owner>,
     sched: Option<Vec<usize>>,
@@ -432,6 +435,7 @@ fn finish(p: Partial) -> Result<Case, String> {
         zst: p.zst,
         pod: p.pod,
         inpanic: p.inpanic,
+        clonepoint: p.clonepoint,
         spare: p.spare,
         threads: p.threads,
         owner: p.owner.unwrap_or(Owner::Drop),
@@ -509,6 +513,9 @@ pub fn parse_cases(text: &str) -> Result<Vec<Case>, String> {
             }
             "pod" => {
                 p.pod = true;
+            }
+            "clonepoint" => {
+                p.clonepoint = true;
             }
             "inpanic" => {
                 for t in &toks[1..] {
